@@ -224,7 +224,7 @@ def prove_lemma(ctx, ex, con, lname, path):
     ctx.axioms.append(z3.ForAll(formals, z3.Implies(z3.And(*guards) if guards else z3.BoolVal(True), goal)))
 
 
-def build(index, contracts, specs, rec, fid):
+def build(index, contracts, specs, rec, fid, keep_ends=False):
     """symbolically execute the function under contract; returns (ctx, ex, info)"""
     con = contracts[fid]
     sorts = Sorts(collect_enums(index))
@@ -320,6 +320,8 @@ def build(index, contracts, specs, rec, fid):
                            z3.Not(ex.eval_clause(con, con.raises_when, dict(env), p)))
     info = {'status': 'OK', 'paths': len(ends), 'returns': n_ret, 'hash': fi.hash, 'file_sha256': fi.module.sha256,
             'entry_pc': entry_pc}
+    if keep_ends:
+        info['ends'], info['env'] = ends, env
     return ctx, ex, info
 
 
